@@ -66,6 +66,13 @@ def replay(w):
         return (abs(got - exp) > 1e-9 * max(1.0, abs(exp))) or got < 0, dict(j_from_ode=got, documented=exp)
     if w["kind"] == "run_ode":
         return battery()
+    if w["kind"] == "is_ok":
+        import numpy as np
+        import moptipyapps.dynamic_control.ode as ode
+        vals = [float(v) for v in w["values"]]
+        got = bool(ode._is_ok(np.array(vals, dtype=float)))
+        exp = all((v == v) and (-1e10 < v < 1e10) for v in vals)
+        return got != exp, dict(is_ok=got, expected=exp)
     raise ValueError(w["kind"])
 
 
@@ -313,6 +320,59 @@ def job_run_ode(n, cd, steps):
                 sample=dict(n=n, cd=cd, steps=steps, outcomes=eng.outcomes), **common)
 
 
+def job_is_ok(seed=0):
+    """`_is_ok`, the guard that makes run_ode notice values outside (-1e10, 1e10):
+    (1) solver: on vectors of 1..4 symbolic reals the real source returns exactly AND(-1e10 < x_i < 1e10);
+    (2) IEEE special values (reals cannot express them): the COMPILED kernel on every vector of length 1..4 over
+        {0, +-1, +-1e10, the doubles next to +-1e10 on either side, NaN, +-inf} - an enumeration, labelled as such."""
+    import itertools
+    import numpy as np
+    import moptipyapps.dynamic_control.ode as ode
+    from symx.core import fresh_array
+    f = xform.transform(ode._is_ok, core.install_builtins())
+    results = []
+    for n in (1, 2, 3, 4):
+        def h(eng):
+            x = fresh_array("v", (n,), real=True)
+            r = f(x)
+            return util.Box(x=x, r=r)
+        eng, box = util.single_path(h)
+        spec = z3.And(*[z3.And(lift(box.x[i]) > lift(-1e10), lift(box.x[i]) < lift(1e10)) for i in range(n)])
+        got = core.bexpr(box.r) if not isinstance(box.r, bool) else z3.BoolVal(box.r)
+        r = backend.solve(list(eng.path_assumptions), got != spec, timeout_s=60, label=f"is_ok n={n}")
+        results.append(r)
+        if r.status != "unsat":
+            q, st = util.qstats(results)
+            if r.status == "unknown":
+                return inconclusive(f"_is_ok n={n}: solver unknown", queries=q, solver_s=st, paths=n)
+            vals = [float(z3.RealVal(r.model.get(f"v_{i}", 0)).as_fraction()) if not isinstance(r.model.get(f"v_{i}", 0), (int, float)) else float(r.model.get(f"v_{i}", 0)) for i in range(n)]
+            realv = bool(ode._is_ok(np.array(vals)))
+            exp = all(-1e10 < v < 1e10 for v in vals)
+            w = dict(kind="is_ok", values=vals, observed=dict(is_ok=realv, expected=exp))
+            if realv != exp:
+                return violated("bounded_self_consistent", "dynamic_control/ode.py:_is_ok", f"_is_ok({vals}) = {realv}, expected {exp}", w, validated=1, queries=q, solver_s=st, paths=n)
+            return inconclusive(f"model does not replay: {w}", queries=q, solver_s=st, paths=n)
+    specials = [0.0, 1.0, -1.0, 1e10, -1e10, float(np.nextafter(1e10, 0.0)), float(np.nextafter(-1e10, 0.0)), float(np.nextafter(1e10, np.inf)),
+                float(np.nextafter(-1e10, -np.inf)), float("nan"), float("inf"), float("-inf")]
+    cnt = 0
+    for n in (1, 2, 3, 4):
+        for vec in itertools.product(specials, repeat=n):
+            if n == 4 and sum(1 for v in vec if v in (0.0, 1.0, -1.0)) < 2:
+                continue          # length 4: at least two ordinary entries (keeps the enumeration at a few thousand vectors)
+            cnt += 1
+            got = bool(ode._is_ok(np.array(vec, dtype=float)))
+            exp = all((v == v) and (-1e10 < v < 1e10) for v in vec)
+            if got != exp:
+                w = dict(kind="is_ok", values=[repr(v) for v in vec], observed=dict(is_ok=got, expected=exp))
+                q, st = util.qstats(results)
+                return violated("bounded_self_consistent", "dynamic_control/ode.py:_is_ok", f"_is_ok({list(vec)}) = {got}, expected {exp}: a value outside (-1e10, 1e10) would go unnoticed by run_ode",
+                                w, validated=cnt, queries=q, solver_s=st, paths=cnt)
+    q, st = util.qstats(results)
+    return held(validated=cnt, paths=cnt + 4, queries=q, solver_s=st,
+                summary=f"_is_ok == AND(-1e10 < x_i < 1e10) for all real vectors of length 1..4 (solver); compiled kernel on {cnt} vectors of IEEE special values (enumeration)",
+                sample=dict(query="exists real vector with _is_ok(v) != AND(-1e10 < v_i < 1e10)", answer="unsat", special_value_vectors=cnt))
+
+
 def battery():
     """concrete systems through the real run_ode (real RK45): slow divergence, fast divergence, blow-up controllers, stable systems"""
     import numpy as np
@@ -335,7 +395,17 @@ def battery():
         def c(s, t, p, out):
             out[0] = 1e50 if t > tt else 0.0
         return c
-    cases = [("growth 0.5", lin(0.5), c0, [1.0], 50.0), ("growth 0.7", lin(0.7), c0, [1.0], 50.0), ("drift 1e9", drift(1e9), c0, [0.0], 50.0),
+    def cnan_at(t0):
+        def c(s, t, p, out):
+            out[0] = float("nan") if t == t0 else 0.0
+        return c
+
+    def cnan_after(tt):
+        def c(s, t, p, out):
+            out[0] = float("nan") if t > tt else 0.0
+        return c
+    cases = [("ctrl NaN after 1", lin(-0.1), cnan_after(1.0), [1.0], 10.0), ("ctrl NaN exactly at a grid time", lin(-0.1), cnan_at(10.0 * 13 / 39), [1.0], 10.0),
+             ("growth 0.5", lin(0.5), c0, [1.0], 50.0), ("growth 0.7", lin(0.7), c0, [1.0], 50.0), ("drift 1e9", drift(1e9), c0, [0.0], 50.0),
              ("stable", lin(-1.0), c0, [5.0], 10.0), ("growth 3", lin(3.0), c0, [1.0], 50.0), ("ctrl blows at 1", lin(-0.1), cblow(1.0), [1.0], 10.0),
              ("ctrl blows at once", lin(-0.1), cblow(-1.0), [1.0], 10.0), ("decay check", lin(-2.0), c0, [3.0], 2.0)]
     probs = []
@@ -355,7 +425,7 @@ def battery():
         for r in range(res.shape[0]):
             o = np.zeros(1)
             ct(res[r, 0:1], res[r, -1], None, o)
-            if o[0] != res[r, 1]:
+            if o[0] != res[r, 1] and not (o[0] != o[0] and res[r, 1] != res[r, 1]):
                 probs.append(f"{name}: control entry of row {r} is not the controller output")
                 break
         jv = j_from_ode(res, 1)
@@ -377,7 +447,8 @@ def job_battery():
 
 
 def jobs(tier):
-    js = [Job("fp-lemma", job_fp_lemma, {}, "figure_of_merit", 300), Job("battery", job_battery, {}, "bounded_self_consistent", 600)]
+    js = [Job("fp-lemma", job_fp_lemma, {}, "figure_of_merit", 300), Job("battery", job_battery, {}, "bounded_self_consistent", 600),
+          Job("is_ok", job_is_ok, {}, "bounded_self_consistent", 600)]
     for R in (2, 3, 4) + ((5,) if tier == "thorough" else ()):
         for sd, cd in ((1, 1), (2, 1), (2, 2), (3, 1)):
             for use in (-1,) + tuple(range(1, sd + 1)):
@@ -393,8 +464,9 @@ def meta(tier):
     return dict(
         bounds=dict(j="simulation matrices of 2..4 rows (thorough 5), state dims 1..3, control dims 1..2, every use_state_dims, entries in (-1e10,1e10), strictly increasing times (reals)",
                     run_ode="state dims 1..2, control dims 1..2, 2 output rows (thorough 3), integrator stub with <= 1 step per cycle and arbitrary status, <= 5 cycles",
-                    fp="one IEEE-double lemma over all v, w, gamma in the admitted magnitudes"),
-        outside=["termination and accuracy of scipy's RK45 (stubbed)", "NaN / infinite values (reals cannot represent them; only the FP lemma and the concrete battery touch IEEE)",
+                    fp="one IEEE-double lemma over all v, w, gamma in the admitted magnitudes",
+                    is_ok="_is_ok on real vectors of length 1..4 (solver) and, by enumeration on the compiled kernel, on vectors of IEEE special values (NaN, +-inf, +-1e10 and their neighbours) of length 1..4"),
+        outside=["termination and accuracy of scipy's RK45 (stubbed)", "NaN / infinite values inside run_ode (reals cannot represent them; the FP lemma, the special-value enumeration of _is_ok and the concrete battery - which includes NaN-producing controllers - touch IEEE)",
                  "agreement with analytic solutions (one concrete case in the battery)", "diff_from_ode numerics", "large step counts"],
         assumptions=["reals stand in for floats in (a) and (d)", "controller = uninterpreted function of (state, time); equations return arbitrary values", "RK45 never reports status failed without the state function having flagged an out-of-range value",
                      "np.linspace(0,T,k): k values, first 0, last T, strictly increasing for T>0; np.nextafter(x,-inf): some value < x"],
